@@ -53,6 +53,38 @@ CLAIMED = {
         "_totals of real bandit against the spec oracle and against the compiled Lean model."),
   technique="Lean 4 proof (arithmetic + list/bytes lemmas) + differential correspondence",
   design="DESIGN.md section 7 C12"),
+ "C07": dict(
+  text=("Lean theorems over the hand model of Issue.__eq__/as_dict/from_dict, populate_baseline, filter_results, _compare_baseline_results, _find_candidate_matches and the exit decision "
+        "(lean/Props/C07.lean), for arbitrary lists: eq_iff_identity, roundtrip_identity (JSON text layer = explicit hypothesis JsonFaithful), new_identity_reported, withheld_only_if_accounted, "
+        "candidates_are_all_occurrences, lines_irrelevant (+pointwise), accounted_findings_withheld, line_moves_silent, baseline_order_irrelevant, self_baseline_empty (exit 0), and the multiplicity "
+        "clause at full strength for the code as it is now: fixed_meets_spec / fixed_multiplicity (reported iff count_now > count_baseline). The pinned commit violated that clause "
+        "(NEG_duplicate_not_reported, multiplicity_partial describe the old membership reading); it was repaired in /repo by fix: commit 22e0621 and the model's currentVariant follows. gen_* instances tie "
+        "match_types and the as_dict/from_dict key tables, regenerated from /repo, to the model. Correspondence on every run: histories scan -> JSON report (real CLI) -> edit -> scan with baseline over ALL "
+        "multisets of <=3 findings over 2 files x identities (incl. a non-BMP/HTML-special literal), 3 layouts, thresholds, through BanditManager and through `bandit -b -f {json,txt,screen,html,custom}` "
+        "parsed back incl. exit status; each outcome compared with the compiled Lean model and with the multiset spec."),
+  technique="Lean 4 proof over hand model (list induction) + exhaustive small-multiset history correspondence + generated field tables",
+  design="DESIGN.md section 7 C07"),
+ "C14": dict(
+  text=("Lean theorems over the model of injection_shell.py / injection_wildcard.py (lean/Props/C14.lean), for every call view whose keyword/argument values evaluate: b602_table, b603_table, "
+        "subprocess_partition (a subprocess-family call with >=1 positional argument is exactly one of B602/B603), b604_table, b605_table, b606_table — closed-form decision tables incl. severity grading "
+        "and the shell= keyword location selector — b607_fires / b607_silent, and shell_truthiness_numbers_containers / shell_truthiness_constants: has_shell agrees with Python truthiness of the literal "
+        "value as _get_literal_value computes it (numbers, list/tuple displays, True/False/None), for arbitrary user configuration lists; gen_defaults_cover_published (decide +kernel over the defaults "
+        "regenerated from /repo). The empty tuple/set defect of the pinned commit was repaired (fix: commit 7485772). Correspondence on every run: every configured function (default and a user-supplied "
+        "configuration) x 4 import spellings x 19 first-argument shapes x 24 shell= values x single/multi-line layouts (quick: seeded sample ~1100 programs; thorough: ~23000) — real bandit vs the "
+        "compiled Lean model on (id, severity, confidence, line, range, col) and vs an independent Python transcription of the property's table (incl. B609 and keyword-line location)."),
+  technique="Lean 4 proof (closed-form decision tables) + differential correspondence over the call grammar",
+  design="DESIGN.md section 7 C14"),
+ "C20": dict(
+  text=("Lean theorems over a state-machine model of bandit/cli/baseline.py (initialize() decision table, the two reset+run steps, @contextmanager semantics parametrised by the shape of baseline_setup "
+        "that the translator reads off /repo's AST on every run): restores_always / restores_single_fault (repository, branch, tree, temp dirs restored for EVERY outcome of parent checkout, run 1, "
+        "current checkout, run 2 — exit n, signal, missing executable, KeyboardInterrupt, other exception, failing checkout — as long as the clean-up checkout can work), restores_partial (any shape), "
+        "NEG_missing_bandit_step1 / NEG_interrupt_step2_leaks_tmpdir (kernel-checked witnesses for the pinned shape without try/finally; repaired in /repo by fix: commit c1d6886, after which "
+        "active_claim is the full statement), NEG_untracked_file_clobbered (open known finding, every shape), refuses_table + starts_when_allowed, exit_is_second_run, gen_shape_classified. Tie to /repo: "
+        "~300 (quick) / ~750 (thorough) real throw-away git repositories (branch and detached HEAD), bandit.cli.baseline.main() in-process with subprocess.check_output and git reset fault-injected in the "
+        "harness process, plus real fake-bandit executables, real SIGINT and unpatched runs; HEAD, refs, git status, file hashes, TMPDIR and exit status compared with the Lean model and a spec oracle; "
+        "exhaustive over 2 steps x 10 outcome kinds, all failing-checkout combinations and the whole precondition table."),
+  technique="Lean 4 proof over hand model (shape generated from source AST) + exhaustive fault-injection correspondence on real git repositories",
+  design="DESIGN.md section 7 C20"),
 }
 
 REASON_PENDING = "check not built yet (work in progress; DESIGN.md section 11 gives the build order)"
